@@ -18,6 +18,9 @@ func (ex *exec) chanSend(c *gochan, v value) {
 	if c == nil {
 		panic(blocked("send on nil channel"))
 	}
+	if c.elemT != nil && needsCopy(c.elemT) {
+		v = copyVal(c.elemT, v)
+	}
 	if c.closed {
 		panic(runtimeError("send on closed channel"))
 	}
